@@ -31,12 +31,17 @@ patch = os.path.join(mdir, "patch%s.diff" % n)
 readme = open(os.path.join(mdir, "README%s.txt" % n)).read() if os.path.exists(os.path.join(mdir, "README%s.txt" % n)) else ""
 meta = {"property": prop, "mutant": n, "patch": open(patch).read()}
 # locate demo copy / run commands in the README
-cp = re.search(r"cp\s+\.mutant/(\S+)\s+(\S+)", readme)
+cpl = re.search(r"^\s*(cp\s+\.mutant/[^\n]*)$", readme, re.M)
 run = re.search(r"(go test [^\n]*?-run[^\n]*)", readme)
-if not cp or not run:
-    print("cannot parse README; cp=%s run=%s" % (cp, run)); print(readme[:1500]); sys.exit(2)
-demo_src, demo_dst, run_cmd = cp.group(1), cp.group(2), run.group(1).strip().rstrip("`")
-run_cmd = re.sub(r"\s+#.*$", "", run_cmd)
+if not cpl or not run:
+    print("cannot parse README; cp=%s run=%s" % (cpl, run)); print(readme[:1500]); sys.exit(2)
+toks = re.split(r"\s*(?:&&|;)\s*", cpl.group(1).strip())[0].split()[1:]
+srcs = [t[len(".mutant/"):] for t in toks if t.startswith(".mutant/")]
+dest = toks[-1]
+demos = [(sname, dest + sname if dest.endswith("/") else dest) for sname in srcs]
+run_cmd = run.group(1).strip().rstrip("`")
+run_cmd = re.split(r"\s+2>&1|\s+\||;|\s+#", run_cmd)[0].strip()
+demo_src, demo_dst = demos[0]
 sh("git checkout -- . && git clean -fdq -e .mutant", cwd=wt)
 rc, o = sh("git apply %s" % patch, cwd=wt)
 assert rc == 0, "patch does not apply in worktree: " + o
@@ -44,13 +49,15 @@ rc1, o1 = sh("go build ./... && go build -tags verif ./...", cwd=wt)
 rc2, o2 = sh("go test -vet=off -count=1 ./cache ./server ./location ./compress ./util ./app && go test -vet=off -count=1 -skip TestEtcdClient ./config", cwd=wt)
 meta["builds"] = rc1 == 0
 meta["existing_tests_pass"] = rc2 == 0
-shutil.copy(os.path.join(mdir, demo_src), os.path.join(wt, demo_dst))
+for a, b in demos:
+    shutil.copy(os.path.join(mdir, a), os.path.join(wt, b))
 rc3, o3 = sh(run_cmd, cwd=wt, timeout=600)
 meta["demo_with_change"] = "FAIL" if rc3 != 0 else "pass"
 sh("git checkout -- .", cwd=wt)
 rc4, o4 = sh(run_cmd, cwd=wt, timeout=600)
 meta["demo_without_change"] = "pass" if rc4 == 0 else "FAIL"
-os.remove(os.path.join(wt, demo_dst))
+for a, b in demos:
+    os.remove(os.path.join(wt, b))
 meta["demo_cmd"] = "cp .mutant/%s %s && %s" % (demo_src, demo_dst, run_cmd)
 meta["demo_output_with_change_tail"] = o3[-800:]
 ok = meta["builds"] and meta["existing_tests_pass"] and rc3 != 0 and rc4 == 0
@@ -90,6 +97,7 @@ meta["readme"] = readme
 out = "/verif/seeded/%s-%s" % (prop, n)
 os.makedirs(out, exist_ok=True)
 shutil.copy(patch, os.path.join(out, "patch.diff"))
-shutil.copy(os.path.join(mdir, demo_src), os.path.join(out, demo_src))
+for a, b in demos:
+    shutil.copy(os.path.join(mdir, a), os.path.join(out, a))
 m2 = dict(meta); m2.pop("patch")
 json.dump(m2, open(os.path.join(out, "meta.json"), "w"), indent=1)
